@@ -128,6 +128,9 @@ type provedBatch struct {
 
 func (c *C07) Run(x *engine.Ctx) *engine.Violation {
 	t := x.T
+	if x.Run%5 == 3 {
+		return c.concurrentCallers(x) // World L: interleaved callers of one proving system
+	}
 	var hist []provedBatch
 	var lg []string
 	steps := t.Range(2, 4)
